@@ -305,7 +305,7 @@ def pipeline_cases(draw):
     if not any(n.split(".")[0] == "filter" for n, _ in steps):
         steps.append(["filter.z", draw(gen.filter_cfg())])
     a = draw(st.integers(-4, 1))
-    return {"pair": pair, "pipeline": steps, "disp": [a, a + draw(st.integers(0, 4))]}
+    return {"pair": pair, "pipeline": steps, "disp": gen.clamp_interval([a, a + draw(st.integers(0, 4))], pair["W"], steps)}
 
 
 def pipeline_body(ctx: Ctx, p: dict) -> None:
